@@ -30,13 +30,29 @@ func L(n ...*Node) []*Node { return n }
 
 var none = []*Node{}
 
-func one(t ...*Node) []txPlan {
-	fee := false
+func blockAcc(a, fl int) *Node {
+	return &Node{Op: nNative, Fl: fl, Nat: &NatOp{Kind: natBlock, Val: a}}
+}
+func unblockAcc(a, fl int) *Node {
+	return &Node{Op: nNative, Fl: fl, Nat: &NatOp{Kind: natUnblock, Val: a}}
+}
+func deploy(d, fl int) *Node {
+	return &Node{Op: nNative, Fl: fl, Nat: &NatOp{Kind: natDeploy, Val: d}}
+}
+
+// planOf derives what the transaction needs (committee witness, deployment fee) from the tree.
+func planOf(t []*Node) txPlan {
+	p := txPlan{tree: t}
 	var walk func(l []*Node)
 	walk = func(l []*Node) {
 		for _, n := range l {
-			if n.Op == nNative && n.Nat.Kind == natSetFee {
-				fee = true
+			if n.Op == nNative {
+				switch n.Nat.Kind {
+				case natSetFee, natBlock, natUnblock:
+					p.committee = true
+				case natDeploy:
+					p.deploys = true
+				}
 			}
 			walk(n.Body)
 			walk(n.Catch)
@@ -47,8 +63,10 @@ func one(t ...*Node) []txPlan {
 		}
 	}
 	walk(t)
-	return []txPlan{{tree: t, hasFee: fee}}
+	return p
 }
+
+func one(t ...*Node) []txPlan { return []txPlan{planOf(t)} }
 
 func corpus() [][]txPlan {
 	return [][]txPlan{
@@ -96,8 +114,17 @@ func corpus() [][]txPlan {
 		// committee-signed Policy setter inside a rolled-back callee, and inside a committed one
 		one(call(0, 15, try(L(call(1, 15, setFee(777, 15), throw())), L(notify(1)), nil)), call(2, 15, setFee(555, 15))),
 		one(call(0, 15, setFee(444, 15), abort())),
+		// blocked-account list (sorted slice in the Policy cache): rolled back / committed / unblocked
+		one(call(0, 15, blockAcc(7, 15), try(L(call(1, 15, blockAcc(6, 15), blockAcc(8, 15), unblockAcc(7, 15), throw())), L(notify(1)), nil), blockAcc(8, 15))),
+		one(call(0, 15, blockAcc(6, 15), blockAcc(7, 15), blockAcc(8, 15), try(L(call(1, 15, unblockAcc(7, 15), throw())), none, nil), unblockAcc(6, 15), abort())),
+		one(call(0, 15, blockAcc(6, 15), blockAcc(7, 15), blockAcc(8, 15), try(L(call(1, 15, unblockAcc(7, 15), throw())), none, nil))),
+		one(call(0, 15, blockAcc(6, 15), blockAcc(8, 15), try(L(call(1, 15, blockAcc(7, 15), throw())), none, nil))),
+		// deployments (Management cache, next contract ID): rolled back, then committed with the same ID
+		one(call(0, 15, try(L(call(1, 15, deploy(0, 15), deploy(1, 15), throw())), L(notify(1)), nil), deploy(1, 15), try(L(call(2, 15, deploy(2, 15))), none, nil))),
+		one(call(0, 15, deploy(0, 15), deploy(0, 15))),
+		one(call(0, 15, deploy(2, 15), abort())),
 		// a faulting transaction between two good ones
-		{simpleTxFixed(0, 1, 1), {tree: L(call(0, 15, put(1, 9), call(1, 15, put(1, 9)), abort()))}, simpleTxFixed(1, 2, 2)},
+		{simpleTxFixed(0, 1, 1), planOf(L(call(0, 15, put(1, 9), deploy(0, 15), call(1, 15, put(1, 9)), abort()))), simpleTxFixed(1, 2, 2)},
 	}
 }
 
